@@ -259,4 +259,134 @@ theorem cinv_run (raises : Nat → Cb → Bool) (h : List COp) : ∀ (c : Client
     simp only [Client.run, Client.specAfter]
     exact ih _ _ (cinv_step raises c g op hc (hwf op (by simp))) (fun o ho => hwf o (by simp [ho]))
 
+/-! ### the client against the history-only registry `Spec.ClientSpec` -/
+
+def Pending.request : Pending → Request
+  | .addOk cb a _ => .add cb a
+  | .delOk id => .del id
+
+structure Link (c : Client) (s : ClientSpec) : Prop where
+  inv : CInv c s.reg
+  reqs : c.calls.map (Option.map Pending.request) = s.requests
+
+theorem map_setNone (k : Nat) (l : List (Option Pending)) :
+    (setNone k l).map (Option.map Pending.request) = answered k (l.map (Option.map Pending.request)) := by
+  induction l generalizing k with
+  | nil => cases k <;> rfl
+  | cons x t ih =>
+    cases k with
+    | zero => rfl
+    | succ k => simp [setNone, answered, ih]
+
+theorem requests_getElem (c : Client) (s : ClientSpec) (h : Link c s) (k : Nat) :
+    s.requests[k]? = (c.calls[k]?).map (Option.map Pending.request) := by
+  rw [← h.reqs]; simp
+
+theorem del_absent (g : SpecRouter) (id : Nat) (h : ¬ g.live.any (fun r => r.id = id) = true) :
+    (g.step (.del id)).1 = g := by
+  simp only [SpecRouter.step, h]
+  rfl
+
+theorem link_step (raises : Nat → Cb → Bool) (c : Client) (s : ClientSpec) (op : COp)
+    (h : Link c s) (hop : op.WF) : Link (c.step Tables.cur raises op).1 (s.step op) := by
+  have hinv := cinv_step raises c s.reg op h.inv hop
+  have hany : ∀ id, (c.matchRules.lookup id).isSome = s.reg.live.any (fun r => r.id = id) := by
+    intro id; rw [h.inv.texts, lookup_textEntry]
+  cases op with
+  | addMatch cb a =>
+    refine ⟨?_, ?_⟩
+    · simpa [ClientSpec.step, Client.routerOp, SpecRouter.stepOpt] using hinv
+    · simp [Client.step, ClientSpec.step, ← h.reqs, Pending.request]
+  | delMatch id =>
+    have ha := hany id
+    cases hl : c.matchRules.lookup id with
+    | none =>
+      have hf : s.reg.live.any (fun r => r.id = id) = false := by rw [← ha, hl]; rfl
+      refine ⟨?_, ?_⟩
+      · simpa [ClientSpec.step, hf, Client.routerOp, SpecRouter.stepOpt] using hinv
+      · simp [Client.step, ClientSpec.step, hl, hf, h.reqs]
+    | some text =>
+      have ht : s.reg.live.any (fun r => r.id = id) = true := by rw [← ha, hl]; rfl
+      refine ⟨?_, ?_⟩
+      · simpa [ClientSpec.step, ht, Client.routerOp, SpecRouter.stepOpt] using hinv
+      · simp [Client.step, ClientSpec.step, hl, ht, ← h.reqs, Pending.request]
+  | replyOk k =>
+    have hk := requests_getElem c s h k
+    cases hc : c.calls[k]? with
+    | none =>
+      rw [hc] at hk
+      refine ⟨?_, ?_⟩
+      · simpa [ClientSpec.step, hk, Client.routerOp, hc, SpecRouter.stepOpt] using hinv
+      · simp [Client.step, ClientSpec.step, hc, hk, h.reqs]
+    | some p =>
+      cases p with
+      | none =>
+        rw [hc] at hk
+        refine ⟨?_, ?_⟩
+        · simpa [ClientSpec.step, hk, Client.routerOp, hc, SpecRouter.stepOpt] using hinv
+        · simp [Client.step, ClientSpec.step, hc, hk, h.reqs]
+      | some pend =>
+        rw [hc] at hk
+        cases pend with
+        | addOk cb a text =>
+          simp only [Option.map_some, Pending.request] at hk
+          refine ⟨?_, ?_⟩
+          · simpa [ClientSpec.step, hk, Client.routerOp, hc, SpecRouter.stepOpt] using hinv
+          · simp only [Client.step, hc, ClientSpec.step, hk, Router.add, mkRule_cur]
+            rw [← h.reqs, map_setNone]
+          | delOk id =>
+          simp only [Option.map_some, Pending.request] at hk
+          have ha := hany id
+          by_cases hl : (c.matchRules.lookup id).isSome = true
+          · have ht : s.reg.live.any (fun r => r.id = id) = true := by rw [← ha]; exact hl
+            refine ⟨?_, ?_⟩
+            · simpa [ClientSpec.step, hk, Client.routerOp, hc, hl, SpecRouter.stepOpt] using hinv
+            · simp only [Client.step, hc, hl, if_true, ClientSpec.step, hk]
+              have hany' : c.router.rules.any (fun e => e.id = id) = true := by
+                rw [h.inv.sim.rules, any_entry]; exact ht
+              simp only [Router.del, hany', if_true]
+              rw [← h.reqs, map_setNone]
+          · have hf : ¬ s.reg.live.any (fun r => r.id = id) = true := by rw [← ha]; exact hl
+            refine ⟨?_, ?_⟩
+            · have : (s.step (.replyOk k)).reg = s.reg := by
+                simp only [ClientSpec.step, hk]; exact del_absent _ _ hf
+              rw [this]
+              simpa [Client.routerOp, hc, hl, SpecRouter.stepOpt] using hinv
+            · simp only [Client.step, hc, hl, ClientSpec.step, hk, Bool.false_eq_true, if_false]
+              rw [← h.reqs, map_setNone]
+  | replyErr k =>
+    have hk := requests_getElem c s h k
+    cases hc : c.calls[k]? with
+    | none =>
+      rw [hc] at hk
+      refine ⟨?_, ?_⟩
+      · simpa [ClientSpec.step, hk, Client.routerOp, SpecRouter.stepOpt] using hinv
+      · simp [Client.step, ClientSpec.step, hc, hk, h.reqs]
+    | some p =>
+      cases p with
+      | none =>
+        rw [hc] at hk
+        refine ⟨?_, ?_⟩
+        · simpa [ClientSpec.step, hk, Client.routerOp, SpecRouter.stepOpt] using hinv
+        · simp [Client.step, ClientSpec.step, hc, hk, h.reqs]
+      | some pend =>
+        rw [hc] at hk
+        refine ⟨?_, ?_⟩
+        · simpa [ClientSpec.step, hk, Client.routerOp, SpecRouter.stepOpt] using hinv
+        · simp only [Client.step, hc, ClientSpec.step, hk, Option.map_some]
+          rw [← h.reqs, map_setNone]
+  | signal m =>
+    exact ⟨by simpa [ClientSpec.step, Client.routerOp, SpecRouter.stepOpt, SpecRouter.step] using hinv, h.reqs⟩
+
+theorem link_init : Link {} {} := ⟨cinv_init, rfl⟩
+
+theorem link_run (raises : Nat → Cb → Bool) (h : List COp) : ∀ (c : Client) (s : ClientSpec),
+    Link c s → (∀ op ∈ h, op.WF) → Link (Client.run Tables.cur raises c h).1 (s.run h) := by
+  induction h with
+  | nil => intro c s hl _; exact hl
+  | cons op ops ih =>
+    intro c s hl hwf
+    simp only [Client.run, ClientSpec.run]
+    exact ih _ _ (link_step raises c s op hl (hwf op (by simp))) (fun o ho => hwf o (by simp [ho]))
+
 end Txdbus.Route
